@@ -236,9 +236,6 @@ def check_c06(scn):
                     scn.fail("join-then-sync", {"what": "sync-with-other-identity"},
                              f"member c{i}: JoinGroup reply assigned (member {mid}, generation {gen}) but SyncGroup carried {e[5]}")
                 pending = None
-    for e in scn.ev:
-        if e[2] == "metadata-change":
-            return  # partition/topic changes legitimately restart joins at any time; convergence below still needs a quiet tail
     _convergence(scn)
 
 
@@ -326,6 +323,9 @@ def check_c19(scn):
                          f"member c{i} ({mid}, generation {ctx.get('generation')}) stopped while its coordinator was reachable but wrote no "
                          f"LeaveGroup; the coordinator still lists it (stop ended at tick {end_tick})")
     for e in scn.ev:
+        if e[2] == "stop-exc":
+            scn.fail("stop-terminates", {"what": "stop-raised", "type": e[4]},
+                     f"member c{e[3]}: stop() raised {e[4]}({e[5]}) to its caller at t={e[1]}")
         if e[2] == "after-stop" and e[5] != "ConsumerStoppedError":
             scn.fail("stop-api", {"what": "call-after-stop", "call": e[4], "outcome": e[5]},
                      f"member c{e[3]}: {e[4]}() after stop() {e[5]} instead of raising ConsumerStoppedError")
